@@ -1579,7 +1579,7 @@ def run(ctx) -> Result:
     check_pb_cases(res, [gen_pb_case(rng) for _ in range(400 if ctx.thorough else 60)])
     check_cache_cases(res, [gen_cache_case(rng) for _ in range(400 if ctx.thorough else 60)])
     # second-generation streams (harness/c11_ext.py), compared with the model line by line
-    for label, gen, chk, n in (("pbd", c11_ext.gen_pbd_case, c11_ext.check_pbd_cases, 1500 if ctx.thorough else 160),
+    for label, gen, chk, n in (("pbd", c11_ext.gen_pbd_case, c11_ext.check_pbd_cases, 1500 if ctx.thorough else 150),
                                ("jac", c11_ext.gen_jac_case, c11_ext.check_jac_cases, 600 if ctx.thorough else 60)):
         cases = [gen(rng) for _ in range(n)]  # all drawn first: the streams do not depend on the deadline
         for k in range(0, n, 40):
